@@ -1463,6 +1463,13 @@ M('C15', 'eigh_rho takes the trace before clamping small eigenvalues (round-5 se
   "    W[W < 1.0e-14] = 0  # set small eigenvalues to zero\n    renormalization = np.sum(W)\n", "    renormalization = np.sum(W)\n    W[W < 1.0e-14] = 0  # set small eigenvalues to zero\n",
   'TRUNC-norm-version')
 
+M('C16', 'LanczosEvolution._converged weights with the result norm (round-5 seed a)', KRY,
+  "        return np.abs(self._result_krylov[k]) < self.P_tol", "        return np.abs(self._result_krylov[k]) * self._result_norm < self.P_tol",
+  'KRYLOV-converged-normalised')
+M('C16', 'LanczosEvolution.run: default of normalize from the imaginary part (round-5 seed b)', KRY,
+  "            normalize = np.real(delta) == 0.0", "            normalize = np.imag(delta) != 0.0",
+  'KRYLOV-default-doc')
+
 # ---------------------------------------------------------------- C16 / C19
 M('C16', 'GMRES restart: relative residual norm used for normalisation (round-3 seed b)', KRY,
   """        self.total_error.append([npc.norm(self.rs[-1]) / self.b_norm])
